@@ -91,7 +91,7 @@ PROPS = {
         "families": ["bits", "cmath", "cstr"],
         "level": "for functions with an is_constant_evaluated() / builtin split both source paths are lowered; the ghost vf_ce is symbolic, so both paths are proved against the same specification for all arguments, and the constant-evaluated path is proved free of UB (UB there is a compile error)",
         "note": "what a contract can say about C13: agreement of two SOURCE paths; fidelity of the compiler's constant evaluator, step limits and -O0/-O2 are out of reach",
-        "not_covered": ["fidelity of the compiler's constant evaluator", "functions with a single source path (nothing to compare)", "evaluation step limits"],
+        "not_covered": ["fidelity of the compiler's constant evaluator", "functions with a single source path outside the bits family: nothing to compare (for the single-path bit/integer utilities the UB-freedom obligations - e.g. shift width - count for C13, because UB in a constant expression is a compile error)", "evaluation step limits", "long double"],
         "design_ref": "DESIGN.md 7 C13",
     },
     "C14": {
